@@ -163,6 +163,9 @@ def run(ctx):
                 A, B = Bicomplex(a1, a2), Bicomplex(b1, b2)
                 k = rng.choice([-3, -2, -1, 0, 0, 1, 2, 3, 4, 5, 7, 0.0, 2.0, np.int64(0), np.int64(3)])
                 r = rng.uniform(-2.5, 2.5)
+                if rng.random() < 0.4:
+                    # a real exponent that is integral only up to a relative 1e-9 .. 3e-5: not an integer power
+                    r = rng.choice([-3, -2, -1, 1, 2, 3, 4, 5]) * (1.0 + rng.choice([-1, 1]) * 10.0 ** rng.uniform(-9, -4.5))
                 ctx.tried((op, a1, a2, b1, b2))
                 try:
                     R, e = {
